@@ -59,7 +59,11 @@ def cases(draw):
             models.append({"kind": kd, "time_scale": draw(ts), "img_seed": draw(st.integers(0, 1000))})
         elif kd == "dark_current":
             models.append({"kind": kd, "figure_of_merit": draw(st.floats(0.01, 10.0)), "temperature": draw(st.sampled_from([150.0, 200.0, 273.0, 300.0]))})
-    return {"shape": [rows, cols], "start": start, "duration": duration, "cuts": cuts, "models": models,
+    regular = None
+    if draw(st.sampled_from([False, False, True])):
+        # evenly spaced readouts whose first interval (from the start time) differs from the sampling period
+        regular = {"k": draw(st.integers(3, 10)), "first_frac": draw(st.sampled_from([0.05, 0.1, 0.25, 0.5, 0.8]))}
+    return {"regular": regular, "shape": [rows, cols], "start": start, "duration": duration, "cuts": cuts, "models": models,
             "qe": draw(st.sampled_from([None, 1.0, 0.5, 0.123])), "lam": draw(st.sampled_from([2.0, 0.5, 3.7, 10.0])),
             "det_type": draw(st.sampled_from(["CCD", "CMOS"]))}
 
@@ -148,11 +152,19 @@ def body(case, rec):
     if start + dur == 0.0:  # the end of the exposure must be a valid (non-zero) readout time
         dur = dur * 1.5
     times = _times(start, dur, case["cuts"])
+    reg = case.get("regular")
+    if reg:
+        first = reg["first_frac"] * dur
+        period = (dur - first) / (reg["k"] - 1)
+        times = [start + first + i * period for i in range(reg["k"] - 1)] + [start + dur]
+        if any(t == 0.0 for t in times) or any(b <= a for a, b in zip([start] + times, times)):
+            times = _times(start, dur, case["cuts"])
+            reg = None
     n = len(times)
     steps = np.diff([start] + times)
     unequal = n >= 2 and (max(steps) - min(steps)) > 1e-9 * dur
     kinds = [m["kind"] for m in case["models"]]
-    rec.cls(*[f"model:{k}" for k in kinds], f"n:{min(n, 6)}{'+' if n > 6 else ''}")
+    rec.cls(*[f"model:{k}" for k in kinds], f"n:{min(n, 6)}{'+' if n > 6 else ''}", "partition:regular" if reg else "partition:random")
     rec.nt(unequal and len(kinds) >= 2)
     single = [times[-1]]
     # ---- non-destructive: the final accumulated charge depends only on S and E
